@@ -17,7 +17,8 @@
 
 /* ---- controlled clock: the statically linked library calls this ---- */
 static time_t g_now = 1700000000;
-time_t time(time_t *t) { if (t) *t = g_now; return g_now; }
+static time_t g_tick = 0;    /* the clock advances by this much with every reading */
+time_t time(time_t *t) { time_t v = g_now; g_now += g_tick; if (t) *t = v; return v; }
 
 /* ---- allocation fault injection through the public jwt_set_alloc ---- */
 static long g_alloc_count = 0, g_alloc_fail_at = -1; /* fail the k-th request (1-based) */
@@ -480,6 +481,9 @@ static void handle(char *line)
 	} else if (!strcmp(t[0], "allochook")) {
 		if (!g_alloc_hooked) { jwt_set_alloc(x_malloc, x_free); g_alloc_hooked = 1; }
 		g_alloc_count = 0; g_alloc_fail_at = n >= 2 ? atol(t[1]) : -1; g_fail_site[0] = 0;
+		printf("ok");
+	} else if (!strcmp(t[0], "clocktick") && n >= 2) {
+		g_tick = (time_t)atoll(t[1]);
 		printf("ok");
 	} else if (!strcmp(t[0], "valreuse") && n >= 2) {
 		g_val_reuse = atoi(t[1]);
